@@ -4,7 +4,7 @@ implementation on the interfaces the property depends on and the direct oracles,
 violations (counterexample or no-failing-input-found)."""
 import hashlib, itertools, json, os, pickle, random, re, shutil, subprocess, sys, time
 sys.path.insert(0, os.path.dirname(os.path.abspath(__file__)))
-import vlib, gram, genrun, backend, i6check, cliprops, frontprops
+import vlib, gram, genrun, backend, i6check, cliprops, frontprops, genprops
 
 TRUSTED_BASE = [
     'Coq 8.16.1 kernel (coqc; coqchk in the thorough tier); vm_compute in Examples; no native_compute',
@@ -854,5 +854,17 @@ reg('C12', frontprops.run_C12, ['Prop_C12.v'], 'seeded random usable grammars wi
     level_text='Proved in Coq: the fixpoint loop of CalculateCanTerminate/CalculateEpsilonClosure as modelled computes exactly the inductive predicate "derives a terminal string", with fuel |rules|+1 shown sufficient (C12_productive). The model of the visitor and of BuildLALR1\'s checks (Front.v) decides refusal and its reason; it is compared with the implementation on every run on grammars with planted defects of every kind and position, and the implementation\'s verdict is compared with the planted defect itself.',
     level_note=MODEL_NOTE + ' The 2000-state limit is outside the checked range.')
 
-NOT_CLAIMED = {pid: 'check under construction: the model and harness for this property are not registered yet (see DESIGN.md section 5.%s); no claim is made' % pid
-               for pid in ['C16', 'C17', 'C18']}
+reg('C16', genprops.run_C16, ['Prop_C16.v'], 'grammars: curated families, one grammar per group of literal characters covering every printable special character (quotes, backslash-free, %, $, braces, bar, space, backquote), seeded random grammars (operator tables, many literals, long rules and many alternatives, empty rules, precedences); actions drawn from a pool that uses $$ and $n with typed symbols and contains %, format strings, block and line comments, strings with braces and quotes, raw strings, nested blocks; minimal prologue (package + import fmt / "use strict") and epilogue (GetToken). Every file the CLI built from /repo reports as generated is compiled: the four Go variants as packages of one module through `go vet` (type check) and `go build`, the TypeScript variant loaded by node >= 22 with type stripping. non-trivial = (grammar, variant) pairs that the generator accepted',
+    technique='Coq theorems on the text fragments the builder pastes (rule comment cannot be closed by action text; translate case labels distinct) + go vet/go build/node on every generated file of a corpus stressing names, literals, actions and rule shapes',
+    level_text='Proved in Coq: the rule comment built from any action text contains no comment terminator and shows terminator-free text unchanged (C16_comment_safe, C16_comment_faithful); the case labels of translate are pairwise distinct when the code table passes the verified checker (C16_translate_cases_distinct). Acceptance of the whole file by the Go type checker / a JavaScript engine is runtime behaviour no Coq model exhibits (partial): it is decided on every run by compiling every generated file of the corpus in all five variants; compiler diagnostics are the failing evidence.',
+    level_note=MODEL_NOTE + ' go vet/go build and node (type stripping, no type check: no tsc in the sandbox) are trusted for the verdict on each file. Guard: token names are identifiers of the target language that are not keywords or template names.')
+reg('C17', genprops.run_C17, ['Prop_C17.v'], I6RULE + 'trace jobs: sentences and short strings run with IsTrace = true in the four Go variants; every printed line is parsed and the printed run is replayed on the implementation\'s own GTable (token read, state pushed, lookahead, rule text from the grammar, goto state, goto push after every reduction), the printed reductions are compared with those the actions recorded in the same run, and the run must be traced up to the accept or error cell. non-trivial = traced runs with at least one reduction',
+    technique='Coq theorems on the traced LR machine (printed reductions = performed reductions; the printed run replays on the table) + replay of every real trace on the implementation\'s own table',
+    level_text='Proved in Coq for the traced machine (one Shift event per push, one Reduce event per reduction before its goto push): the reductions printed are exactly the reductions performed for accepted and rejected inputs (C17_trace_reductions), and the printed run replays on the table, i.e. is a legal run of the automaton on the input (C17_trace_legal). The real traces of the four Go variants are parsed and replayed on the implementation\'s own table on every run, including the exact rule text and the lookahead of every reduction.',
+    level_note=MODEL_NOTE + ' The traced machine is the abstract list-stack machine; its equality with the array driver is C08_array_driver.')
+reg('C18', genprops.run_C18, ['Prop_C18.v'], BERULE + 'in-process run with DebugFlags on (the `debug` listing on stdout) and DrawGrammar on the table of the same run; the listing is parsed back into states, items, transitions and lookahead sets and compared with LR0Closure, GTable and LookAheadSet of that run; the DOT text is parsed back into nodes (items, reduce annotations, accept mark) and edges and compared with GTable cell by cell. non-trivial = grammars whose table has both reductions and an accepting state',
+    technique='Coq lemma (record labels are injective) + listing and DOT graph parsed back and compared with automaton, lookahead sets and table of the same run',
+    level_text='Proved in Coq: joining fields with a separator is invertible when no field contains it (C18_label_injective), the reason a state label determines its items and reduce annotations. That the rendered content is exactly the automaton and table of the same run is checked on every run: the debug listing and the DOT graph of every corpus grammar are parsed back and compared with LR0Closure, LookAheadSet and GTable of that run (states, items, transitions, reduce annotations with rule numbers, accept mark, numbering).',
+    level_note=MODEL_NOTE + ' `dot` is not installed: SaveGraph is not exercised, the DOT text is taken from DrawGrammar(...).String().')
+
+NOT_CLAIMED = {}
